@@ -825,6 +825,31 @@ static void op_initdump(void)
 	int ty = (int) tok_ll();
 	printf("init "); dump_msg((const ProtobufCMessage *) pbcv_gen_inits[ty]); printf("\n");
 }
+/* genenum <i> ...: dump of the i-th generated enum descriptor */
+static void op_enumdesc(void)
+{
+	const ProtobufCEnumDescriptor *d = pbcv_gen_enums[tok_ll()];
+	unsigned j;
+	printf("magic=%d name=%s short=%s cname=%s pkg=%s nv=%u values=", d->magic == PROTOBUF_C__ENUM_DESCRIPTOR_MAGIC,
+	       d->name ? d->name : "(null)", d->short_name ? d->short_name : "(null)", d->c_name ? d->c_name : "(null)",
+	       d->package_name ? d->package_name : "(null)", d->n_values);
+	for (j = 0; j < d->n_values; j++)
+		printf("%s%s:%s:%d", j ? "," : "", d->values[j].name ? d->values[j].name : "(null)",
+		       d->values[j].c_name ? d->values[j].c_name : "(null)", d->values[j].value);
+	printf(" nn=%u byname=", d->n_value_names);
+	for (j = 0; j < d->n_value_names; j++) printf("%s%s:%u", j ? "," : "", d->values_by_name[j].name, d->values_by_name[j].index);
+	printf(" ranges=");
+	for (j = 0; j < d->n_value_ranges + (d->n_values ? 1 : 0); j++) printf("%s%d:%u", j ? "," : "", d->value_ranges[j].start_value, d->value_ranges[j].orig_index);
+	printf("\n");
+}
+/* genapi <ty> ...: which helper functions the generated header declares for message ty (table written by
+   tools/genpipe.py from the header text; every declared function is also referenced there, so a declaration
+   without definition does not link) */
+static void op_genapi(void)
+{
+	int ty = (int) tok_ll();
+	printf("pack=%d init=%d\n", pbcv_api[ty][0], pbcv_api[ty][1]);
+}
 #else
 static void op_initdump(void) { op_init(); }
 #endif
@@ -870,7 +895,10 @@ static void run_op(const char *op)
 	else if (!strcmp(op, "desc")) op_desc();
 	else if (!strcmp(op, "initdump")) op_initdump();
 #ifdef PBCV_GEN
-	else if (!strcmp(op, "svc")) op_svc();
+	else if (!strcmp(op, "gendesc")) op_desc();          /* the rest of the line is for the Lean generator model */
+	else if (!strcmp(op, "gensvc")) op_svc((int) tok_ll());
+	else if (!strcmp(op, "genenum")) op_enumdesc();
+	else if (!strcmp(op, "genapi")) op_genapi();
 #endif
 	else printf("bad-op\n");
 	sfree_all();
